@@ -56,4 +56,33 @@ theorem perlArgs_probes_pin :
     FmtCheckTables.perlArgsProbes.all (fun p =>
       summarize (checkArgsPerlBrace probePfx "msgid".toList p.1 "msgstr".toList p.2.1 p.2.2.1) == some p.2.2.2) = true := by decide +kernel
 
+/-! ## the composition with the parser models of C13 on the probed strings -/
+
+def sigArgsOf : ParseOutcome PyBraceSig → Option (List (BKey × List TySet) × Nat)
+  | .ok f => some (f.args, f.nitems)
+  | _ => none
+
+def perlArgsOf : ParseOutcome PerlBraceSig → Option (List (List Char) × Nat)
+  | .ok f => some (sortBy strLt f.args, f.nitems)
+  | _ => none
+
+/-- every second row (the two tolerance settings share the signatures) -/
+def evens {α : Type} : List α → List α
+  | a :: _ :: rest => a :: evens rest
+  | l => l
+
+/-- **the python-brace parser model (C13), run in the kernel on the probed strings, yields — through `braceSigOf` — exactly the
+    signatures the translator extracted from the real parser objects**: keys, dict order, type sets of every use, `len` -/
+theorem braceStrings_probes_pin :
+    ((FmtCheckTables.braceArgsStrings.zip (evens FmtCheckTables.braceArgsProbes)).all fun p =>
+      sigArgsOf (pyBraceParse p.1.1.toList) == some (p.2.1.args, p.2.1.nitems) &&
+      sigArgsOf (pyBraceParse p.1.2.toList) == some (p.2.2.1.args, p.2.2.1.nitems)) = true ∧
+    FmtCheckTables.braceArgsStrings.length * 2 = FmtCheckTables.braceArgsProbes.length := by decide +kernel
+
+theorem perlStrings_probes_pin :
+    ((FmtCheckTables.perlArgsStrings.zip (evens FmtCheckTables.perlArgsProbes)).all fun p =>
+      perlArgsOf (perlBraceParse p.1.1.toList) == some (sortBy strLt p.2.1.args, p.2.1.nitems) &&
+      perlArgsOf (perlBraceParse p.1.2.toList) == some (sortBy strLt p.2.2.1.args, p.2.2.1.nitems)) = true ∧
+    FmtCheckTables.perlArgsStrings.length * 2 = FmtCheckTables.perlArgsProbes.length := by decide +kernel
+
 end I18n.FmtCheck
